@@ -60,6 +60,31 @@ type Subject struct {
 	Min  map[string]Inner
 }
 
+// Tail is a second, small value type of the schema whose LAST encoded element is a string or a small integer, so
+// that the encodings of the binary formats can end (and, for HeadStr, begin after the header) in arbitrary bytes,
+// including the ASCII white-space bytes. (A Subject always ends in a nil pointer or an empty map.)
+type Tail struct {
+	Name string
+	Blob []byte
+	N    int64
+}
+
+func genTail(t *rapid.T, d domain) *Tail {
+	v := &Tail{Name: genString(t, "tailname", d, false)}
+	if rapid.Bool().Draw(t, "tailblob") {
+		v.Blob = genBytes(t, "tailblob")
+	}
+	switch rapid.IntRange(0, 3).Draw(t, "tailkind") {
+	case 0:
+		v.N = int64(rapid.SampledFrom([]int{9, 10, 11, 12, 13, 32, 0x0920, 0x200a}).Draw(t, "wsint"))
+	case 1:
+		v.N = genI64(t, "tailn", d)
+	default:
+		v.N = int64(rapid.IntRange(0, 40).Draw(t, "tailsmall"))
+	}
+	return v
+}
+
 // domain describes what a serialization format (library) can represent; the
 // generators stay inside it.
 type domain struct {
